@@ -63,6 +63,31 @@ pub fn cases(tier: Tier) -> Vec<Case> {
             out.push(Case::Neg { a: a.clone(), elim_a: true });
         }
     }
+    // one-split operands whose decision rows are short (norm 2^-13) or whose thresholds are large and not dyadic
+    // (the LP vertex of a grafted edge then misses the hyperplane by more than 1e-8 in absolute terms)
+    let split = |p: Aff, f0: Aff, f1: Aff| TSpec::Dec(p, vec![Some(TSpec::Leaf(f0)), Some(TSpec::Leaf(f1))]);
+    let mut pairs: Vec<(TSpec, TSpec)> = vec![];
+    let s13 = 2f64.powi(-13);
+    for (pa, pb) in [(r1(&[s13], 0.0), r1(&[1.0], 1.0 / 256.0)), (r1(&[-s13], 0.0), r1(&[1.0], -1.0 / 256.0)), (r1(&[1.0], 0.0), r1(&[1.0], 2f64.powi(-28))), (r1(&[s13], s13), r1(&[-1.0], -1.0 - 1.0 / 512.0))] {
+        pairs.push((split(pa.clone(), r1(&[1.0], 16.0), r1(&[2.0], 32.0)), split(pb.clone(), r1(&[4.0], 64.0), r1(&[8.0], 128.0))));
+        pairs.push((split(pb, r1(&[1.0], 16.0), r1(&[2.0], 32.0)), split(pa, r1(&[4.0], 64.0), r1(&[8.0], 128.0))));
+    }
+    for c in [9.7f64, 3.3, 7.1, 0.7] {
+        for t in [1e8f64, 1e9, 1e10] {
+            let near = (t / c).round() + 16.0;
+            pairs.push((split(r1(&[c], t), r1(&[1.0], 16.0), r1(&[2.0], 32.0)), split(r1(&[1.0], near), r1(&[4.0], 64.0), r1(&[8.0], 128.0))));
+            pairs.push((split(r1(&[1.0], near), r1(&[1.0], 16.0), r1(&[2.0], 32.0)), split(r1(&[c], t), r1(&[4.0], 64.0), r1(&[8.0], 128.0))));
+        }
+    }
+    for (ra, ta, rb, tb) in [([5.3, 0.1], 1e8, [0.7, 0.9], 2e8), ([0.7, 0.9], 2e8, [5.3, 0.1], 1e8), ([3.1, -0.7], 1e7, [0.3, 1.9], 3e7), ([1.3, 2.9], 1e8, [2.7, -1.1], 1e8)] {
+        pairs.push((split(r1(&ra, ta), r1(&[1.0, 0.0], 16.0), r1(&[2.0, 0.0], 32.0)), split(r1(&rb, tb), r1(&[4.0, 0.0], 64.0), r1(&[8.0, 0.0], 128.0))));
+    }
+    for (a, b) in pairs {
+        for op in ['+', '-'] {
+            out.push(Case::TreeTree { a: a.clone(), b: b.clone(), op, elim_a: false });
+            out.push(Case::TreeTree { a: a.clone(), b: b.clone(), op, elim_a: true });
+        }
+    }
     out
 }
 
@@ -107,7 +132,7 @@ fn judge(sa: &Snap, sb: Option<&Snap>, res: &AffTree<2>, reference: &dyn crate::
     let mut cfg = Config::default();
     cfg.max_mismatches = 16;
     let o = refine(n, &imp, reference, &cfg, out, &mut |face, _, _| {
-        let (n, e) = conform_face(res, &sr, face, true);
+        let (n, e) = conform_face(res, &sr, face, sr.is_small_dyadic());
         conf += n;
         if let Some(e) = e {
             conf_err = Some(e)
